@@ -794,4 +794,76 @@ var Shapes = []func(b *B){
 			b.braces(func() { b.n("s") })
 		}
 	},
+	// 16: mutually recursive fragments whose bodies hold a same-named field with a nested spread
+	// (the merge rule compares sub-selections while it is following nested spreads)
+	func(b *B) {
+		spread := func(opts ...string) {
+			b.p(hparse.KSpread)
+			b.pick(opts...)
+		}
+		body := func(next ...string) {
+			b.braces(func() {
+				b.n("o")
+				b.braces(func() {
+					if b.alt(2) == 0 {
+						spread("C", "A")
+					} else {
+						b.n("a")
+					}
+				})
+				spread(next...)
+			})
+		}
+		b.braces(func() {
+			b.n("o")
+			b.braces(func() { b.n("a") })
+			spread("A", "B")
+		})
+		b.ns("fragment", "A", "on", "Query")
+		body("B", "C", "A")
+		b.ns("fragment", "B", "on", "Query")
+		body("A", "C")
+		b.ns("fragment", "C", "on", "Obj")
+		b.braces(func() { b.n("a") })
+	},
+	// 17: introspection depth through a fragment spread twice at different depths (either order)
+	func(b *B) {
+		spreadF := func() { b.p(hparse.KSpread); b.n("F") }
+		lvl := func(inner func()) {
+			b.pick("fields", "type", "ofType", "interfaces")
+			b.braces(inner)
+		}
+		first := b.alt(2)
+		b.braces(func() {
+			b.pick("__schema", "__type")
+			b.braces(func() {
+				b.n("types")
+				b.braces(func() {
+					if first == 0 {
+						spreadF()
+					}
+					lvl(func() {
+						lvl(func() {
+							if b.alt(2) == 0 {
+								spreadF()
+							} else {
+								b.n("name")
+							}
+						})
+					})
+					if first == 1 {
+						spreadF()
+					}
+				})
+			})
+		})
+		b.ns("fragment", "F", "on", "__Type")
+		b.braces(func() {
+			b.n("name")
+			b.pick("fields", "interfaces", "name", "ofType")
+			if b.alt(2) == 0 {
+				b.braces(func() { b.n("name") })
+			}
+		})
+	},
 }
